@@ -53,10 +53,17 @@ func record(test string, s suite, c *cfg, info caseInfo) {
 // drawQualified draws a qualified set of holders; must (>= 0) forces that holder into it.
 func drawQualified(t *rapid.T, p *policy.Policy, must int) uint64 {
 	var sets []uint64
-	for _, s := range p.QualifiedSets() {
-		if must < 0 || s&(1<<uint(must)) != 0 {
-			sets = append(sets, s)
+	all := p.QualifiedSets()
+	if rapid.IntRange(0, 3).Draw(t, "anyQualifiedSet") != 0 {
+		all = p.MinimalQualified() // mostly minimal sets: fewer Verify calls per case
+	}
+	for pass := 0; pass < 2 && len(sets) == 0; pass++ {
+		for _, s := range all {
+			if must < 0 || s&(1<<uint(must)) != 0 {
+				sets = append(sets, s)
+			}
 		}
+		all = p.QualifiedSets() // the holder is in no minimal set: take any qualified set with it
 	}
 	if len(sets) == 0 {
 		t.Fatalf("harness: policy %s has no qualified set containing holder %d", p, must)
@@ -96,10 +103,10 @@ var shareKindsPedersen = []string{"blind+1", "blind-rand", "blind-zero", "blind-
 
 func (e *env[E, S]) shareCase(t *rapid.T, c *cfg) caseInfo {
 	w := newWorld(t, e, c)
-	w.baseline(t)
 	tg := w.targets()
 	ti := rapid.IntRange(0, len(tg)-1).Draw(t, "target")
 	dl := tg[ti]
+	w.baseline(t, dl, false)
 	n := c.pol.N
 	h := rapid.IntRange(0, n-1).Draw(t, "holder")
 	base := w.honest(dl, h)
@@ -290,7 +297,9 @@ func (e *env[E, S]) vectorCase(t *rapid.T, c *cfg) caseInfo {
 			indep++
 		}
 		what := fmt.Sprintf("vector entry %d replaced (%s, changed=%v); holder %d rows %v have coefficients %v in that column", j, kind, changed, h, w.holderRows[h], w.coeffs(h, j))
-		w.presentLib(t, what, dl, h, vv2, !affected)
+		// mpc.NewBaseShard (which recomputes all public shares) for the first holder of each kind only
+		shardToo := (affected && dep == 1) || (!affected && indep == 1)
+		w.presentLibWith(t, what, dl, h, vv2, !affected, shardToo)
 	}
 
 	// ReconstructAndVerify with the altered vector: error iff some member's share depends on the entry
